@@ -2,6 +2,7 @@
 //! poll functions by hand with counting wakers, next to a reference FIFO model, compared step by step.
 use serde::{Deserialize, Serialize};
 use std::future::Future;
+use std::io::IoSlice;
 use std::num::NonZeroUsize;
 use std::pin::Pin;
 use std::sync::atomic::{AtomicUsize, Ordering};
@@ -10,33 +11,51 @@ use std::task::{Context, Poll, Wake, Waker};
 use swimos_byte_channel::{byte_channel, ByteReader, ByteWriter, RunWithBudget};
 use tokio::io::{AsyncRead, AsyncWrite, ReadBuf};
 
-pub const MAX_CAP: usize = 64;
+pub const MAX_CAP: usize = 70_000;
 const MAX_PRE: usize = 16;
-const PAT_LEN: usize = 1 << 16;
+/// The byte at absolute stream position i is `(i % 251 + i / 251) mod 256`: period 251 * 256 = 64256, so
+/// loss, duplication or reordering of any amount that is not a multiple of 64256 bytes changes the content
+/// (and every amount is caught by the byte counts).
+pub const PERIOD: usize = 251 * 256;
+const PAT_LEN: usize = PERIOD + 4 * (MAX_CAP + 1) + 64;
 
 const fn make_pat() -> [u8; PAT_LEN] {
     let mut p = [0u8; PAT_LEN];
     let mut i = 0;
     while i < PAT_LEN {
-        p[i] = (i % 251) as u8;
+        p[i] = ((i % 251) + (i / 251)) as u8;
         i += 1;
     }
     p
 }
-/// Byte written at absolute stream position i is PAT[i] (period 251, so loss, duplication and reordering of
-/// anything shorter than 251 bytes is visible).
 static PAT: [u8; PAT_LEN] = make_pat();
 const MARK: u8 = 0xFE;
+
+/// `len` bytes of the stream starting at absolute position `pos`.
+pub fn pattern(pos: usize, len: usize) -> &'static [u8] {
+    &PAT[pos % PERIOD..][..len]
+}
+
+fn show(data: &[u8]) -> String {
+    if data.len() <= 24 {
+        format!("{:?}", data)
+    } else {
+        format!("{:?}.. ({} bytes)", &data[..24], data.len())
+    }
+}
 
 #[derive(Clone, Copy, PartialEq, Eq, Serialize, Deserialize)]
 #[serde(into = "String", try_from = "String")]
 pub enum Op {
     /// poll_write of the next k bytes of the pattern
-    W(u8),
+    W(u32),
+    /// poll_write_vectored of the next bytes of the pattern cut into `count` (1..=4) slices of these lengths
+    /// (empty slices allowed); must behave like a write of the concatenation
+    Wv(u8, [u32; 4]),
     /// poll_read into an empty ReadBuf with n bytes of room
-    R(u8),
+    R(u32),
     /// poll_read into a ReadBuf that already holds p bytes and has n bytes of room
-    Rp(u8, u8),
+    Rp(u8, u32),
     /// poll_flush
     F,
     /// poll_shutdown
@@ -54,18 +73,29 @@ pub enum Op {
 
 impl Op {
     /// injective byte code (fingerprints)
-    pub fn code(&self) -> [u8; 3] {
+    pub fn code(&self, out: &mut Vec<u8>) {
+        let mut put = |tag: u8, a: u32, b: u8| {
+            out.push(tag);
+            out.extend_from_slice(&a.to_le_bytes());
+            out.push(b);
+        };
         match *self {
-            Op::W(k) => [0, k, 0],
-            Op::R(n) => [1, n, 0],
-            Op::Rp(p, n) => [2, n, p],
-            Op::F => [3, 0, 0],
-            Op::S => [4, 0, 0],
-            Op::DW => [5, 0, 0],
-            Op::DR => [6, 0, 0],
-            Op::B(b) => [7, b, 0],
-            Op::Kw => [8, 0, 0],
-            Op::Kr => [9, 0, 0],
+            Op::W(k) => put(0, k, 0),
+            Op::R(n) => put(1, n, 0),
+            Op::Rp(p, n) => put(2, n, p),
+            Op::F => put(3, 0, 0),
+            Op::S => put(4, 0, 0),
+            Op::DW => put(5, 0, 0),
+            Op::DR => put(6, 0, 0),
+            Op::B(b) => put(7, 0, b),
+            Op::Kw => put(8, 0, 0),
+            Op::Kr => put(9, 0, 0),
+            Op::Wv(c, l) => {
+                for (j, x) in l.iter().take(c as usize).enumerate() {
+                    put(10, *x, j as u8);
+                }
+                put(11, 0, c);
+            }
         }
     }
 }
@@ -80,6 +110,10 @@ impl From<Op> for String {
     fn from(op: Op) -> String {
         match op {
             Op::W(k) => format!("W{}", k),
+            Op::Wv(c, l) => format!(
+                "Wv{}",
+                l.iter().take((c as usize).clamp(1, 4)).map(|x| x.to_string()).collect::<Vec<_>>().join("+")
+            ),
             Op::R(n) => format!("R{}", n),
             Op::Rp(p, n) => format!("R{}p{}", n, p),
             Op::F => "F".into(),
@@ -97,7 +131,8 @@ impl TryFrom<String> for Op {
     type Error = String;
     fn try_from(s: String) -> Result<Op, String> {
         let bad = || format!("bad op {}", s);
-        let num = |t: &str| t.parse::<u8>().map_err(|_| bad());
+        let num = |t: &str| t.parse::<u32>().map_err(|_| bad());
+        let small = |t: &str| t.parse::<u8>().map_err(|_| bad());
         match s.as_str() {
             "F" => Ok(Op::F),
             "S" => Ok(Op::S),
@@ -105,10 +140,21 @@ impl TryFrom<String> for Op {
             "DR" => Ok(Op::DR),
             "Kw" => Ok(Op::Kw),
             "Kr" => Ok(Op::Kr),
+            t if t.starts_with("Wv") => {
+                let parts: Vec<&str> = t[2..].split('+').collect();
+                if parts.is_empty() || parts.len() > 4 {
+                    return Err(bad());
+                }
+                let mut l = [0u32; 4];
+                for (j, x) in parts.iter().enumerate() {
+                    l[j] = num(x)?;
+                }
+                Ok(Op::Wv(parts.len() as u8, l))
+            }
             t if t.starts_with('W') => Ok(Op::W(num(&t[1..])?)),
-            t if t.starts_with('B') => Ok(Op::B(num(&t[1..])?)),
+            t if t.starts_with('B') => Ok(Op::B(small(&t[1..])?)),
             t if t.starts_with('R') => match t[1..].split_once('p') {
-                Some((n, p)) => Ok(Op::Rp(num(p)?, num(n)?)),
+                Some((n, p)) => Ok(Op::Rp(small(p)?, num(n)?)),
                 None => Ok(Op::R(num(&t[1..])?)),
             },
             _ => Err(bad()),
@@ -148,14 +194,14 @@ pub fn reset_budget(b: u8) {
 
 #[derive(Clone, Copy, Debug, Serialize, Deserialize, PartialEq, Eq)]
 pub struct Cfg {
-    pub cap: u8,
+    pub cap: u32,
     /// coop budget the run starts with (and returns to after each Pending when `repoll`)
     pub budget: u8,
     /// after a poll returned Pending the task is polled again from the top: the budget is reset
     pub repoll: bool,
 }
 
-pub const NCLASS: usize = 13;
+pub const NCLASS: usize = 15;
 pub const CLASS_NAMES: [&str; NCLASS] = [
     "reader-parked",
     "writer-parked",
@@ -170,6 +216,8 @@ pub const CLASS_NAMES: [&str; NCLASS] = [
     "parked-side-woken",
     "drained-at-end",
     "fresh-waker",
+    "vectored-write",
+    "bulk-op-8192+",
 ];
 const C_RPARK: u32 = 1 << 0;
 const C_WPARK: u32 = 1 << 1;
@@ -184,6 +232,8 @@ const C_FULL: u32 = 1 << 9;
 const C_WOKEN: u32 = 1 << 10;
 const C_DRAINED: u32 = 1 << 11;
 const C_FRESH: u32 = 1 << 12;
+const C_VEC: u32 = 1 << 13;
+const C_BULK: u32 = 1 << 14;
 
 #[derive(Default, Clone, Copy)]
 pub struct RunStats {
@@ -349,69 +399,14 @@ impl Sys {
 
     fn step(&mut self, op: Op) -> StepRes {
         match op {
-            Op::W(k) => {
-                let k = (k as usize).min(MAX_CAP + 1);
-                if self.w.is_none() {
-                    return StepRes::Invalid;
+            Op::W(k) => self.write(&[(k as usize).min(MAX_CAP + 1)], false),
+            Op::Wv(c, l) => {
+                let c = (c as usize).clamp(1, 4);
+                let mut lens = [0usize; 4];
+                for j in 0..c {
+                    lens[j] = (l[j] as usize).min(MAX_CAP + 1);
                 }
-                let cw = self.ww.clone();
-                let c0 = cw.count();
-                let waker = Waker::from(cw.clone());
-                let mut cx = Context::from_waker(&waker);
-                let data = &PAT[self.wpos..self.wpos + k];
-                let res = Pin::new(self.w.as_mut().unwrap()).poll_write(&mut cx, data);
-                if k == 0 {
-                    self.classes |= C_ZW;
-                }
-                match res {
-                    Poll::Pending => {
-                        let blocked = k > 0 && !self.closed() && self.buffered() == self.cap;
-                        self.on_pending(Side::W, blocked, c0, cw, "poll_write");
-                    }
-                    Poll::Ready(Ok(m)) => {
-                        self.wait_w = None;
-                        if !self.r_alive && k > 0 {
-                            let st = self.state();
-                            self.fail(
-                                "write-accepted-after-reader-drop",
-                                format!("poll_write of {} bytes returned Ok({}) although the reader has been dropped; {}", k, m, st),
-                            );
-                        } else if m > k {
-                            self.fail("write-count-exceeds-request", format!("poll_write of {} bytes returned Ok({})", k, m));
-                        } else if self.buffered() + m > self.cap {
-                            let st = self.state();
-                            self.fail(
-                                "capacity-exceeded",
-                                format!("poll_write of {} bytes returned Ok({}): {} bytes would be buffered; {}", k, m, self.buffered() + m, st),
-                            );
-                        } else if m == 0 && k > 0 {
-                            let st = self.state();
-                            self.fail(
-                                "write-zero",
-                                format!("poll_write of {} bytes returned Ok(0) (tokio: the writer can no longer accept bytes) although it reported no error; {}", k, st),
-                            );
-                        } else {
-                            if m < k {
-                                self.classes |= C_PARTIAL;
-                            }
-                            self.wpos += m;
-                        }
-                    }
-                    Poll::Ready(Err(e)) => {
-                        self.wait_w = None;
-                        if !self.closed() {
-                            let st = self.state();
-                            self.fail(
-                                "write-error-while-open",
-                                format!("poll_write of {} bytes failed with {:?} although neither half was dropped or shut down; {}", k, e.kind(), st),
-                            );
-                        } else {
-                            self.classes |= C_WFAIL;
-                        }
-                    }
-                }
-                self.after_op("write");
-                StepRes::Ok
+                self.write(&lens[..c], true)
             }
             Op::R(n) => self.read(0, n as usize),
             Op::Rp(p, n) => self.read(p as usize, n as usize),
@@ -497,14 +492,106 @@ impl Sys {
         }
     }
 
+    /// poll_write (one slice) or poll_write_vectored (the slices are consecutive pieces of the pattern).
+    fn write(&mut self, lens: &[usize], vectored: bool) -> StepRes {
+        let k: usize = lens.iter().sum();
+        if self.w.is_none() {
+            return StepRes::Invalid;
+        }
+        let cw = self.ww.clone();
+        let c0 = cw.count();
+        let waker = Waker::from(cw.clone());
+        let mut cx = Context::from_waker(&waker);
+        let name = if vectored { "poll_write_vectored" } else { "poll_write" };
+        let res = if vectored {
+            self.classes |= C_VEC;
+            // one contiguous window of the pattern, cut into the requested slices
+            let window = pattern(self.wpos, k);
+            let mut slices = [IoSlice::new(&[]); 4];
+            let mut at = 0;
+            for (j, len) in lens.iter().enumerate() {
+                slices[j] = IoSlice::new(&window[at..at + len]);
+                at += len;
+            }
+            let slices = &slices[..lens.len()];
+            let w = self.w.as_mut().unwrap();
+            let _ = w.is_write_vectored();
+            Pin::new(w).poll_write_vectored(&mut cx, slices)
+        } else {
+            Pin::new(self.w.as_mut().unwrap()).poll_write(&mut cx, pattern(self.wpos, k))
+        };
+        if k == 0 {
+            self.classes |= C_ZW;
+        }
+        match res {
+            Poll::Pending => {
+                let blocked = k > 0 && !self.closed() && self.buffered() == self.cap;
+                self.on_pending(Side::W, blocked, c0, cw, name);
+            }
+            Poll::Ready(Ok(m)) => {
+                self.wait_w = None;
+                if !self.r_alive && k > 0 {
+                    let st = self.state();
+                    self.fail(
+                        "write-accepted-after-reader-drop",
+                        format!("{} of {:?} bytes returned Ok({}) although the reader has been dropped; {}", name, lens, m, st),
+                    );
+                } else if m > k {
+                    self.fail("write-count-exceeds-request", format!("{} of {:?} bytes returned Ok({})", name, lens, m));
+                } else if self.buffered() + m > self.cap {
+                    let st = self.state();
+                    self.fail(
+                        "capacity-exceeded",
+                        format!("{} of {:?} bytes returned Ok({}): {} bytes would be buffered; {}", name, lens, m, self.buffered() + m, st),
+                    );
+                } else if m == 0 && k > 0 {
+                    let st = self.state();
+                    self.fail(
+                        "write-zero",
+                        format!("{} of {:?} bytes returned Ok(0) (tokio: the writer can no longer accept bytes) although it reported no error; {}", name, lens, st),
+                    );
+                } else {
+                    if m < k {
+                        self.classes |= C_PARTIAL;
+                    }
+                    if m >= 8192 {
+                        self.classes |= C_BULK;
+                    }
+                    self.wpos += m;
+                }
+            }
+            Poll::Ready(Err(e)) => {
+                self.wait_w = None;
+                if !self.closed() {
+                    let st = self.state();
+                    self.fail(
+                        "write-error-while-open",
+                        format!("{} of {:?} bytes failed with {:?} although neither half was dropped or shut down; {}", name, lens, e.kind(), st),
+                    );
+                } else {
+                    self.classes |= C_WFAIL;
+                }
+            }
+        }
+        self.after_op("write");
+        StepRes::Ok
+    }
+
     fn read(&mut self, p: usize, n: usize) -> StepRes {
         let p = p.min(MAX_PRE);
         let n = n.min(MAX_CAP + 1);
         if self.r.is_none() {
             return StepRes::Invalid;
         }
-        let mut arr = [0u8; MAX_PRE + MAX_CAP + 1];
-        let mut rb = ReadBuf::new(&mut arr[..p + n]);
+        let mut small = [0u8; 128];
+        let mut big: Vec<u8>;
+        let room: &mut [u8] = if p + n <= small.len() {
+            &mut small[..p + n]
+        } else {
+            big = vec![0u8; p + n];
+            &mut big
+        };
+        let mut rb = ReadBuf::new(room);
         rb.put_slice(&[MARK; MAX_PRE][..p]);
         let cw = self.wr.clone();
         let c0 = cw.count();
@@ -538,16 +625,17 @@ impl Sys {
                         let st = self.state();
                         self.fail(
                             "read-more-than-written",
-                            format!("poll_read delivered {} bytes {:?} but only {} are outstanding; {}", got, data, self.buffered(), st),
+                            format!("poll_read delivered {} bytes {} but only {} are outstanding; {}", got, show(data), self.buffered(), st),
                         );
-                    } else if data != &PAT[self.rpos..self.rpos + got] {
+                    } else if data != pattern(self.rpos, got) {
                         let st = self.state();
                         self.fail(
                             "read-not-prefix-of-written",
                             format!(
-                                "poll_read delivered {:?} but the next bytes written are {:?} (lost, duplicated or reordered bytes); {}",
-                                data,
-                                &PAT[self.rpos..self.rpos + got],
+                                "poll_read delivered {} but the next bytes written are {} (first difference at offset {}; lost, duplicated or reordered bytes); {}",
+                                show(data),
+                                show(pattern(self.rpos, got)),
+                                data.iter().zip(pattern(self.rpos, got)).position(|(a, b)| a != b).unwrap_or(0),
                                 st
                             ),
                         );
@@ -572,6 +660,9 @@ impl Sys {
                     } else {
                         if n > 0 && got == n && got < self.buffered() {
                             self.classes |= C_RLIM;
+                        }
+                        if got >= 8192 {
+                            self.classes |= C_BULK;
                         }
                         self.rpos += got;
                     }
@@ -598,7 +689,7 @@ impl Sys {
         reset_budget(64);
         let bound = 2 * (self.buffered() + 2);
         for _ in 0..bound {
-            self.step(Op::R(self.cap as u8));
+            self.step(Op::R(self.cap as u32));
             if !self.fails.is_empty() {
                 return;
             }
